@@ -241,6 +241,9 @@ def item(e, alias=""):
         key = e[1][-1] if (len(e[1]) <= 2 and hint(e, "style", 0) == 0) else ".".join(e[1])
         if len(e[1]) == 1:
             key = e[1][0]
+    elif e[0] == "func" and e[2] == "fuse" and e[3] and e[3][0][0] == "col":
+        # an un-aliased call is keyed by its SQL text (only visible when FUSE yields NULL)
+        key = "FUSE(%s)" % ".".join(e[3][0][1])
     else:
         raise ValueError("non-column select items must be aliased")
     return ["item", e, key, alias]
